@@ -4,7 +4,8 @@ from . import c03_c06_lib as lib
 
 MODULE = "StorageModel.Properties.C03"
 THEOREMS = ["inv_init", "inv_step", "inv_tx", "inv_reachable", "unique_index_exact", "nullable_unique_index_exact",
-            "set_index_exact", "no_empty_keys", "child_data_inside_entity", "uniq_injective", "unique_holder", "dup_rejected",
+            "set_index_exact", "no_empty_keys", "child_data_inside_entity", "registered_values", "index_paths_distinct",
+            "schema_index_paths_distinct", "index_paths_off_entities", "uniq_injective", "unique_holder", "dup_rejected",
             "empty_rejected", "error_changes_nothing", "step_refines_spec", "render_eq_spec", "no_panic"]
 
 PLAIN_SCHEMA = "6e616d65+6e616d65+6e616d65+616c696173+616c696173+616c696173+726f6c6573+726f6c6573+726f6c6573+746167+746167"
@@ -25,13 +26,24 @@ def stats_of(case, impl):
     inc("transactions", len(txs))
     inc("multi_op_transactions", sum(1 for t in txs if "," in t))
     head = case.split(" ")
-    if len(head) == 4 and head[2] != PLAIN_SCHEMA:
-        n = head[2].split("+")
-        inc("histories_schema_names_differ")
-        if n[0] != n[1] or n[3] != n[4]:
-            inc("histories_symbol_name_differs_from_key")
-        if n[1] != n[2] or n[4] != n[5] or n[7] != n[8]:
-            inc("histories_checker_name_differs_from_key")
+    if len(head) == 4:
+        parts = head[2].split(";")
+        n = parts[0].split("+")
+        if parts[0] != PLAIN_SCHEMA:
+            inc("histories_schema_names_differ")
+            if n[0] != n[1] or n[3] != n[4]:
+                inc("histories_symbol_name_differs_from_key")
+            if n[1] != n[2] or n[4] != n[5] or n[7] != n[8]:
+                inc("histories_checker_name_differs_from_key")
+        base = parts[1].split("+") if len(parts) > 1 and parts[1] != "." else (["75"] if len(parts) <= 1 else [])
+        inc("histories_base_path_len_%d" % len(base))
+        if len(parts) > 3 and parts[3] != "0":
+            inc("histories_base_path_slice_with_spare_capacity")
+        order = parts[2] if len(parts) > 2 else "nar"
+        regs = [c for c in order if c in "nar"]
+        inc("histories_indexes_registered_%d" % len(regs))
+        if len(regs) == 3 and order != "nar":
+            inc("histories_all_indexes_other_registration_order")
     has_ext = set()
     for op in _ops(case):
         f = op.split(":")
@@ -98,18 +110,22 @@ RULE = ("random histories (seeded) of 5-24 (quick) / 5-40 (thorough) transaction
         "of the written names deliberately taken by another entity; one third of the histories use the indexed store alone "
         "under the one-name schema, two thirds add the plain child store (creates through it, half of them over an existing "
         "plain parent entity; updates through it and through the parent; deletes through either store, half of them aimed at "
-        "entities with child data) under one of six schemas (symbol name / stored key / caller-side checker name equal, "
-        "overridden, re-keyed, both, crossed overrides, crossed keys), a sixth of their patches naming a key or symbol name "
-        "instead of the caller-side name; thorough adds all 111,150 histories of length <= 4 over 2 ids x 2 values with an "
+        "entities with child data) under a schema drawn from: six name variants (symbol name / stored key / caller-side checker "
+        "name equal, overridden, re-keyed, both, crossed overrides, crossed keys) x base path of 1-5 elements (a sixth with a "
+        "repeated element, a quarter handed to NewBaseStore as a slice with 1-3 spare capacity) x registered indexes (half "
+        "name,alias,roles; a quarter all three in another order; a quarter a proper subset in some order, incl. none), a "
+        "sixth of their patches naming a key or symbol name instead of the caller-side name; thorough adds all 111,150 histories of length <= 4 over 2 ids x 2 values with an "
         "18-letter operation alphabet and all 69,904 histories of length <= 4 over 2 ids with a 16-letter alphabet of parent / "
-        "child operations under the all-names-differ schema; a history is non-trivial when it has >= 2 committed "
+        "child operations under the all-names-differ schema with a three-element base path and registration order "
+        "roles,alias,name; a history is non-trivial when it has >= 2 committed "
         "transactions and a rejected duplicate/empty write, a unique value handed over between entities, or an id "
         "re-created after delete; distinct = distinct case line")
 
 ASSUMPTIONS = [
     "bbolt: a bucket is a finite map with keys in byte order, a transaction applies all of its writes or none (rollback is modelled, not verified)",
     "the entity strategy of the harness store writes name via SetString, alias via SetStringP, roles via SetStringList (after WithFieldOverrides where the schema says so) and raises no error of its own; the child strategy persists the parent's fields through GetParentContext, then its own field",
-    "the schema's symbol names are pairwise distinct, as are its stored keys (the model keeps one map per index whatever the names)",
+    "the schema's symbol names are pairwise distinct, as are its stored keys (the model keeps one map per index whatever the names; index_paths_distinct then makes the index bucket paths pairwise distinct)",
+    "base path elements, ids, values and names contain no '/' and differ from the bucket names indexes / things / ext",
     "the parent store's child-store strategy maps an entity with child data to its stored child entity with the shared fields replaced (boltz/manager_store_test.go)",
     "ids, values and bucket names of the universe contain no '/' (boltz.Traverse builds paths by string concatenation)",
 ]
